@@ -36,7 +36,7 @@ ItemOK(a, b) ==
   /\ a.k = b.k
   /\ CASE a.k = "out" -> a.s = b.s
        [] a.k = "err" -> ErrsOK(a.errs, b.errs)
-       [] a.k = "list" -> a.ln = b.ln
+       [] a.k = "list" -> a.ln = b.ln /\ a.text = b.s
        [] a.k = "input" -> a.s = b.s /\ a.caps = b.caps
        [] OTHER -> TRUE
 RespOK(spec, obs) == Len(spec) = Len(obs) /\ \A i \in 1..Len(spec) : ItemOK(spec[i], obs[i])
